@@ -124,3 +124,44 @@ PROPS["C14"] = {
                    "matching the last answer (same boxed error value).",
     "assumptions": [],
 }
+
+PROPS["C03"] = {
+    "title": "Parser accepts exactly the grammar and reports the first malformed instruction",
+    "units": {"quick": ["parser_core"], "thorough": ["parser_core", "decoder", "table_core", "parser_protocol"]},
+    "level": "proof",
+    "technique": "Verus contracts on the extracted parse_header/parse_inst/parse_operands/parse_spec_constant_op and the generated operand parsers: framing, error kinds, 1-based instruction number, offset inside the declared extent, exact word accounting",
+    "design_ref": "DESIGN.md §4 C03",
+    "explanation": "parse_header, parse_inst, parse_operands, parse_spec_constant_op, parse_literal and all seven generated operand-parsing "
+                   "functions are extracted verbatim. Proved for all inputs: header three-way outcome; Complete iff fewer than four bytes remain; "
+                   "WordCountZero/OpcodeUnknown with the instruction's offset and 1-based number; success consumes exactly the declared word "
+                   "count (no word left over) and yields the looked-up opcode; every positioned error carries this instruction's number and an "
+                   "offset inside its declared extent. NOT proved in this revision: that the accepted operand sequences are exactly those of the "
+                   "grammar row (refinement of the quantifier loop against a declarative matcher) — see DESIGN.md.",
+    "assumptions": [],
+}
+PROPS["C10"] = {
+    "title": "Context-dependent literal widths follow the types declared earlier",
+    "units": {"quick": ["parser_core"], "thorough": ["parser_core"]},
+    "only_items": {"parser_core": [r"parse_literal", r"parse_operands", r"parse_inst"]},
+    "level": "proof",
+    "technique": "Verus contract on the extracted parse_literal: words consumed and operand variant as a function of the tracker's abstract map only; fresh tracker per parser; tracker semantics by bounded Kani check",
+    "design_ref": "DESIGN.md §4 C10",
+    "explanation": "parse_literal is proved to consume one word for Integer 8/16/32, Float 16/32 and unknown types, two words low-first for 64 bits, "
+                   "and to return TypeUnsupported(offset, index) for every other width, as a function of resolve(type_id) alone; parse_operands passes the "
+                   "result type (OpConstant/OpSpecConstant) or operand 0 (OpSwitch selector), both protected by table facts proved per row.",
+    "assumptions": ["TypeTracker::{new, track, resolve} semantics (HashMap + closures): abstract map assumed here"],
+}
+PROPS["C04"] = {
+    "title": "Parsing, loading, assembling and disassembling never panic on any input",
+    "units": {"quick": ["decoder", "parser_core", "parser_protocol", "loader", "disas_guard"],
+              "thorough": ["decoder", "parser_core", "parser_protocol", "loader", "disas_guard", "table_core"]},
+    "level": "proof",
+    "technique": "aggregation of the panic-class obligations (index, slice, unwrap/expect, assert, panic!(), overflow, termination) Verus generates at the real source lines of decoder, parser, loader and disas_constant",
+    "design_ref": "DESIGN.md §4 C04",
+    "explanation": "In Verus every panic!, assert!, unwrap, expect, index, slice range and machine-integer operation of the extracted functions is an "
+                   "obligation; all of them are discharged for every byte string / limit / consumer behaviour under the stated invariants. "
+                   "Covered: all of Decoder, parse_header..parse_operands, the generated operand parsers, Parser::parse (with termination), "
+                   "Loader, disas_constant. Listed as not covered in the evidence: parse_words' unsafe from_raw_parts, TypeTracker/ExtInstSetTracker "
+                   "(HashMap), disas_ext_inst and the format!-based Disassemble impls, Assemble (unit assemble).",
+    "assumptions": [],
+}
